@@ -434,12 +434,12 @@ class C18(Prop):
             content = [[dec(k), decs(x)] for k, x in out["content"]]
             co = f"(IFitted {dct(content)} {tout(out['t_train'])} {tout(out['t_known'])})"
         levels = C.clist([dct(lv) for lv in case["levels"]])
-        return (f"mkC18 {levels} {vs(decs(case['col']))} {C.cfloat(case['mf'])} "
+        return (f"mkC18 {C.cbool(case['wellformed'])} {levels} {vs(decs(case['col']))} {C.cfloat(case['mf'])} "
                 f"{C.cbool(case['drop'])} {vs(case['kin'])} {co}")
 
     def coq_shards(self, cases, outs):
         shards = []
-        for part in chunks(list(zip(cases, outs)), 20):
+        for part in chunks(list(zip(cases, outs)), 25):
             body = ";\n  ".join(self.coq_case(c, o) for c, o in part)
             shards.append(
                 "From AC.Model Require Import Base GroupedList Chained CheckC18.\nOpen Scope string_scope.\n"
